@@ -105,7 +105,11 @@ def gen_case(rng, i):
             'expected_text': T.to_text(rng, ref)}
     if entry == 'files':
         good = T.to_text(rng, ref)
-        case['others'] = [[good, good]]
+        if rng.random() < 0.5:
+            case['others'] = [[good, good]]
+        else:
+            a2, r2, _ = T.gen_pair(rng)          # an independent second pair, failing or not
+            case['others'] = [[T.to_text(rng, a2), T.to_text(rng, r2)]]
         case['pos'] = rng.randrange(2)
     return case
 
@@ -135,9 +139,15 @@ def combo_case(rng):
         ref.insert(rng.randint(0, idx[0]), 'RM optional e')
     if rng.random() < 0.3:
         opts['rstrip'] = True
-    entry = rng.choice(['string', 'file'])
-    return {'opts': opts, 'entry': entry, 'muts': ['combo-' + side], 'actual_text': '\n'.join(act) + '\n',
+    entry = rng.choice(['string', 'file', 'files'])
+    case = {'opts': opts, 'entry': entry, 'muts': ['combo-' + side], 'actual_text': '\n'.join(act) + '\n',
             'expected_text': '\n'.join(ref) + '\n'}
+    if entry == 'files':
+        # a second failing pair in which nothing is removed or excused, before or after the first
+        w = 'w%d' % rng.randrange(100)
+        case['others'] = [['one %s\ntwo\nthree\n' % w, 'one %s\nTWO\nthree\n' % w]]
+        case['pos'] = rng.randrange(2)
+    return case
 
 
 def check_commands(rec, case, msg, mech):
@@ -285,9 +295,26 @@ def run_case(ctx, case):
         rec.event('artefact:raw_actual_checked')
         if os.path.abspath(raw[0][1]) != os.path.abspath(ap):
             rec.violation('raw_command_not_actual_file', {'case': case, 'mech': mech, 'facts': {'cmd': raw[0]}})
-    # post-processed pair
-    al, el = case['actual_text'].splitlines(), case['expected_text'].splitlines()
+    # post-processed pair(s): one per compared pair of texts
+    if entry == 'files':
+        texts = list(case['others'])
+        texts.insert(case['pos'], [case['actual_text'], case['expected_text']])
+        for k, (a_, e_) in enumerate(texts):
+            check_postprocessed(rec, case, dict(mech, pair=('main' if k == case['pos'] else 'other')), o, oo, cmds, a_, e_,
+                                'a%d.txt' % k, msg, multi=True)
+    else:
+        check_postprocessed(rec, case, mech, o, oo, cmds, case['actual_text'], case['expected_text'],
+                            os.path.basename(ep if entry == 'string' else ap), msg)
+
+
+def check_postprocessed(rec, case, mech, o, oo, cmds, actual_text, expected_text, commonname, msg, multi=False):
+    post = [c for c in cmds if os.path.basename(c[1]) == 'actual-' + commonname and os.path.basename(c[2]) == 'expected-' + commonname]
+    al, el = actual_text.splitlines(), expected_text.splitlines()
     v, info = textcmp.verdict(al, el, oo)
+    if v == 'pass':
+        if post:
+            rec.violation('postprocessed_pair_for_a_passing_pair', {'case': case, 'mech': mech, 'facts': {'cmd': post[0]}})
+        return
     if v != 'fail' or 'inexcusable' not in info or info.get('maybe'):
         rec.unspecified('post-processed pair: oracle has no definite unexcused set')
         return
@@ -318,7 +345,7 @@ def run_case(ctx, case):
         rec.violation('postprocessed_pair_wrong_lines', {
             'case': case, 'mech': dict(mech, removal=bool(o.get('remove_lines')), subs=bool(o.get('ignore_substrings')),
                                        pats=bool(o.get('ignore_patterns'))),
-            'facts': {'differing_lines_in_files': diffs[:5], 'unexcused_pairs': want[:5]}})
+            'facts': {'differing_lines_in_files': diffs[:5], 'unexcused_pairs': want[:5], 'pair': commonname}})
 
 
 def _unexcused_pairs(al, el, oo, info):
